@@ -19,8 +19,8 @@ from .common import lst, blit, natlit, qlit
 
 NAN, INF = math.nan, math.inf
 KINDS = {"rw": "KRW", "mh": "KMH", "iwls": "KIWLS"}
-PARAMS = ["x0", "k", "t0", "t1", "a", "b", "corr", "step"]
-DEFAULT = {"x0": 0.25, "k": 1.0, "t0": 0.0, "t1": 0.0, "a": 1.0, "b": 1.0, "corr": 0.0, "step": 1.0}
+PARAMS = ["x0", "k", "t0", "t1", "a", "b", "corr", "step", "dcin", "dcprop"]
+DEFAULT = {"x0": 0.25, "k": 1.0, "t0": 0.0, "t1": 0.0, "a": 1.0, "b": 1.0, "corr": 0.0, "step": 1.0, "dcin": 0.0, "dcprop": 0.0}
 _FNS: dict = {}
 _EPOCHS: dict = {}
 
@@ -83,15 +83,28 @@ def _families():
     def lp(st):
         return -0.5 * st["k"] * st["x"] ** 2 + jnp.where(st["x"] == st["x0"], st["t"][0], st["t"][1])
 
+    def dpat(code, base):
+        # 4 derived entries off the log-prob path; base-4 digit i of code selects {finite, nan, +inf, -inf} for entry i
+        code = code.astype(jnp.int32)
+        ent = []
+        for i in range(4):
+            dig = (code // (4 ** i)) % 4
+            ent.append(jnp.select([dig == 0, dig == 1, dig == 2], [jnp.float32(base + i), jnp.float32(jnp.nan), jnp.float32(jnp.inf)],
+                                  jnp.float32(-jnp.inf)))
+        return jnp.stack(ent)
+
     def mk_d(p):
         return {"x": p["x0"], "x0": p["x0"], "k": p["k"], "t": jnp.stack([p["t0"], p["t1"]]),
-                "ch": jnp.stack([p["a"], p["b"]]), "corr": p["corr"], "aux": jnp.float32(7.0)}
+                "ch": jnp.stack([p["a"], p["b"]]), "corr": p["corr"], "aux": jnp.float32(7.0),
+                "d": dpat(p["dcin"], 21.0), "dprop": dpat(p["dcprop"], 11.0), "n": jnp.int32(3), "flag": jnp.bool_(False)}
 
     def chol_d(st):
         return jnp.where(st["x"] == st["x0"], st["ch"][0], st["ch"][1]) * jnp.eye(1)
 
+    # the MH kernel of family D proposes, besides x, new derived entries d, an int and a bool leaf
     fams["D"] = dict(model=gs.DictInterface(lp), mk=mk_d, chol=chol_d, getx=lambda st: st["x"],
-                     getcorr=lambda st: st["corr"])
+                     getcorr=lambda st: st["corr"], keys=["x", "d", "n", "flag"],
+                     extra=lambda st: {"d": st["dprop"], "n": st["n"] + 1, "flag": jnp.logical_not(st["flag"])})
 
     # liesel models: x ~ Cauchy (not log-concave: no Cholesky factor of the information for |x| > 1),
     # x ~ Uniform(0, 1) (zero density outside), x ~ Gamma(2, 1) (NaN log-prob for x < 0)
@@ -100,7 +113,10 @@ def _families():
                      ("LG", lsl.Dist(tfd.Gamma, concentration=2.0, rate=1.0))):
         x = lsl.param(jnp.float32(0.5), dist, name="x")
         corr = lsl.Var(jnp.float32(0.0), name="corr")
-        m = lsl.Model([x, corr])
+        # a cached derived quantity OFF the log-prob path, undefined on part of the parameter space:
+        # x < 0: [nan, ., ., nan];  x == 0: [-inf, +inf, -inf, nan];  0 < x < 0.5: [., ., ., nan]
+        derived = lsl.Var(lsl.Calc(lambda x: jnp.stack([jnp.log(x), 1.0 / x, -1.0 / x, jnp.sqrt(x - 0.5)]), x), name="derived")
+        m = lsl.Model([x, corr, derived])
         itf = gs.LieselInterface(m)
         base = m.state
 
@@ -122,8 +138,8 @@ def _kernel(fam, kern):
     elif kern == "mh":
         # forced proposal: deterministic shift by the step size, user supplied log_correction
         def proposal_fn(key, st, step):
-            return gs.MHProposal({"x": F["getx"](st) + step}, F["getcorr"](st))
-        k = gs.MHKernel(["x"], proposal_fn, initial_step_size=1.0)
+            return gs.MHProposal({"x": F["getx"](st) + step, **(F["extra"](st) if "extra" in F else {})}, F["getcorr"](st))
+        k = gs.MHKernel(F.get("keys", ["x"]), proposal_fn, initial_step_size=1.0)
     else:
         k = gs.IWLSKernel(["x"], chol_info_fn=F["chol"], initial_step_size=1.0)
     k.set_model(F["model"])
@@ -183,7 +199,8 @@ def _one_fn(famname, kern, epoch):
             b = chol(xp)
             mu_p = xp + ((step ** 2) / 2) * (score(xp) / b / b)
             bwd = norm.logpdf((x0 - mu_p) * (b / step)) + jnp.log(b / step)
-        stp = model.update_state({"x": xp}, st)
+        extra = F["extra"](st) if (kern == "mh" and "extra" in F) else {}
+        stp = model.update_state({"x": xp, **extra}, st)
         prop = model.log_prob(stp)
         # ---- returned states ----
         lin, lout, lprop = (jax.tree_util.tree_leaves(t) for t in (st, out.model_state, stp))
@@ -197,19 +214,34 @@ def _one_fn(famname, kern, epoch):
             return jnp.all((a_ == b_) | (jnp.isnan(a_) & jnp.isnan(b_))
                            | (jnp.abs(a_ - b_) <= 1e-4 * jnp.maximum(jnp.abs(b_), 1e-3)))
         close_prop = jnp.all(jnp.stack([close(a_, b_) for a_, b_ in zip(lout, lprop)]))
+        # per leaf: differs from the proposed / from the input state (named in the failure message)
+        _LEAFNAMES[famname] = [jax.tree_util.keystr(kp) for kp, _ in jax.tree_util.tree_flatten_with_path(st)[0]]
+        dprop_mask = jnp.stack([~close(a_, b_) for a_, b_ in zip(lout, lprop)])
+        din_mask = jnp.stack([~jnp.all(bits(a_) == bits(b_)) for a_, b_ in zip(lin, lout)])
         same_len = len(lin) == len(lout)
         ks_out = jax.tree_util.tree_leaves(out.kernel_state)
         ks_same = jnp.all(jnp.stack([jnp.all(bits(a_) == bits(b_)) for a_, b_ in zip(ks_in, ks_out)])) & (len(ks_in) == len(ks_out))
         prop_is_in = jnp.all(jnp.stack([jnp.all(bits(a_) == bits(b_)) for a_, b_ in zip(lin, lprop)]))
         f = lambda v: jnp.asarray(v, dtype=jnp.float32)
+        # does the input / proposed state hold a non-finite entry besides the prescribed tables of family D?
+
+        def nonfin(leaves):
+            fl = [jnp.any(~jnp.isfinite(jnp.asarray(l_, dtype=jnp.float32))) for l_ in leaves
+                  if jnp.issubdtype(jnp.asarray(l_).dtype, jnp.floating)]
+            return jnp.any(jnp.stack(fl))
+        if famname == "D":
+            nf_in, nf_prop = jnp.any(~jnp.isfinite(st["d"])), jnp.any(~jnp.isfinite(stp["d"]))
+        else:
+            nf_in, nf_prop = nonfin(lin), nonfin(lprop)
         return (jnp.asarray(out.info.error_code, dtype=jnp.int32), f(out.info.acceptance_prob),
                 jnp.asarray(out.info.position_moved, dtype=bool), f(F["getx"](out.model_state)),
-                same_in & same_len, close_prop & same_len, ks_same, prop_is_in,
-                f(cur), f(prop), f(user), f(fwd), f(bwd), f(u), f(xp))
+                same_in & same_len, close_prop & same_len, ks_same, prop_is_in, nf_in, nf_prop,
+                f(cur), f(prop), f(user), f(fwd), f(bwd), f(u), f(xp), dprop_mask, din_mask)
     return one
 
 
 _FAMCACHE: dict = {}
+_LEAFNAMES: dict = {}
 
 
 def _FAMS():
@@ -227,8 +259,8 @@ def get_fn(fam, kern, epoch, jit=True):
     return _FNS[key]
 
 
-OBS = ["code", "p", "moved", "x_new", "same_in", "close_prop", "ks_same", "prop_is_in",
-       "cur", "prop", "user", "fwd", "bwd", "u", "xp"]
+OBS = ["code", "p", "moved", "x_new", "same_in", "close_prop", "ks_same", "prop_is_in", "nf_in", "nf_prop",
+       "cur", "prop", "user", "fwd", "bwd", "u", "xp", "dprop_mask", "din_mask"]
 
 
 def fill(c, vals):
@@ -242,8 +274,13 @@ def fill(c, vals):
         c[k] = repr(float(o[k]))
     same_in, close_prop = bool(o["same_in"]), bool(o["close_prop"])
     c["ambiguous"] = bool(o["prop_is_in"])
+    c["nonfinite_entries_in_input_state"], c["nonfinite_entries_in_proposed_state"] = bool(o["nf_in"]), bool(o["nf_prop"])
     # 0 = input state bit for bit, 1 = the proposed state, 2 = neither
     c["sel"] = 0 if same_in else (1 if close_prop else 2)
+    names = _LEAFNAMES.get(c["fam"], [])
+    nm = lambda mask: [names[j] if j < len(names) else str(j) for j, b_ in enumerate(list(mask)) if bool(b_)]
+    c["leaves_differing_from_proposed_state"] = nm(o["dprop_mask"])
+    c["leaves_differing_from_input_state"] = nm(o["din_mask"])
     c["ks_ok"] = bool(o["ks_same"]) or c["epoch"] != "POSTERIOR"
     corr = {"rw": 0.0, "mh": float(c["user"])}.get(c["kern"])
     if corr is None:
@@ -282,14 +319,14 @@ def run_cases(cases, jit=True):
         fn = get_fn(fam, kern, epoch, jit)
         if jit:
             seeds = jnp.array([cases[i]["seed"] for i in idxs], dtype=jnp.uint32)
-            cols = [jnp.array([np.float32(float(cases[i]["params"][k])) for i in idxs], dtype=jnp.float32) for k in PARAMS]
+            cols = [jnp.array([np.float32(float(cases[i]["params"].get(k, DEFAULT[k]))) for i in idxs], dtype=jnp.float32) for k in PARAMS]
             outs = [np.asarray(o) for o in fn(seeds, *cols)]
             for j, i in enumerate(idxs):
                 fill(cases[i], [o[j] for o in outs])
         else:
             for i in idxs:
                 c = cases[i]
-                vals = fn(jnp.uint32(c["seed"]), *[jnp.float32(float(c["params"][k])) for k in PARAMS])
+                vals = fn(jnp.uint32(c["seed"]), *[jnp.float32(float(c["params"].get(k, DEFAULT[k]))) for k in PARAMS])
                 fill(c, [np.asarray(v) for v in vals])
     return cases
 
@@ -356,12 +393,13 @@ def generate(ctx, rnd: random.Random):
         for t1 in SP + [fin()]:
             for corr in SP + [fin()]:
                 for s in seeds3():
-                    add("D", "mh", "POSTERIOR", s, t0=t0, t1=t1, corr=corr)
+                    add("D", "mh", "POSTERIOR", s, t0=t0, t1=t1, corr=corr, dcin=rnd.choice([0, rnd.randrange(256)]),
+                        dcprop=rnd.choice([228, 57, rnd.randrange(256)]))
     # --- D / RW kernel: (current, proposed) ---
     for t0 in SP + [fin()]:
         for t1 in SP + [fin()]:
             for s in seeds3():
-                add("D", "rw", "POSTERIOR", s, t0=t0, t1=t1, step=rnd.choice([0.5, 1.0, 2.0]))
+                add("D", "rw", "POSTERIOR", s, t0=t0, t1=t1, step=rnd.choice([0.5, 1.0, 2.0]), dcin=rnd.randrange(256))
     # --- D / IWLS kernel: Cholesky factor of the information at the current (a) / proposed (b) position.
     #     b = NaN, inf, 0, -1: backward density NaN;  b = 1e30: backward density -inf;  a = NaN: everything NaN
     for a, b in [(1.0, 1.0), (1.0, 2.0), (2.0, 0.5), (1.0, NAN), (2.0, NAN), (1.0, INF), (1.0, 0.0), (1.0, -1.0),
@@ -370,7 +408,7 @@ def generate(ctx, rnd: random.Random):
             if t0 != 0.0 and not (b != b or b == 1.0):
                 continue
             for s in seeds3():
-                add("D", "iwls", "POSTERIOR", s, a=a, b=b, t0=t0, t1=t1, step=rnd.choice([0.5, 1.0]))
+                add("D", "iwls", "POSTERIOR", s, a=a, b=b, t0=t0, t1=t1, step=rnd.choice([0.5, 1.0]), dcin=rnd.randrange(256))
     # --- liesel models ---
     for x0 in (0.9, 0.5, -0.7, 0.99, 1.5):
         for s in seeds3() + [rnd.randrange(2 ** 31) for _ in range(3 if ctx.quick else 12)]:
@@ -382,6 +420,13 @@ def generate(ctx, rnd: random.Random):
             for corr in (0.0, NAN, INF, -INF, fin()):
                 for s in seeds3():
                     add(fam, "mh", "POSTERIOR", s, x0=x0, corr=corr, step=rnd.choice([0.25, 1.0, -1.0]))
+    # --- liesel Cauchy model, forced MH moves onto / off positions where the derived node is non-finite
+    #     (x' == 0 exactly: [-inf, +inf, -inf, nan]; x' < 0: nan) while the log-prob stays finite;
+    #     correction +inf: always accepted, -inf: never, finite: by the ratio ---
+    for x0, step in ((-1.0, 1.0), (1.0, -1.0), (0.0, 1.0), (0.0, -1.0), (-0.5, -1.0), (-0.5, 1.0), (0.25, 0.5), (2.0, -2.0)):
+        for corr in (INF, 0.0, -INF, 5.0):
+            for s in seeds3()[: (2 if ctx.quick else 3)]:
+                add("LC", "mh", "POSTERIOR", s, x0=x0, step=step, corr=corr)
     # --- adaptation epochs use _adaptive_transition (dual averaging on the kernel state): same info ---
     for kern in ("rw", "mh", "iwls"):
         for (t0, t1, corr, b) in [(0.0, 0.0, 0.0, 1.0), (0.0, NAN, 0.0, 1.0), (0.0, 0.0, NAN, NAN), (0.0, -INF, 0.0, 1.0),
@@ -434,6 +479,8 @@ def generate(ctx, rnd: random.Random):
         ctx.hist(f"kernel.code={c['code']}")
         ctx.hist("kernel.accepted" if c["moved"] else "kernel.rejected")
         ctx.hist(f"kernel.epoch={c['epoch']}")
+        ctx.hist("kernel.state.%s non-finite entries: input=%s proposed=%s" % ("accepted" if c["moved"] else "rejected",
+                 c["nonfinite_entries_in_input_state"], c["nonfinite_entries_in_proposed_state"]))
     kept.sort(key=lambda c: 0 if c["fam"] != "D" else 1)    # liesel-model cases are reported first
     for c in [c for c in kept if c["kern"] == "iwls" and cls(float(c["bwd"])) == "nan"][:1] + \
              [c for c in kept if c["fam"] == "LC" and c["code"] == 90][:1]:
@@ -476,7 +523,11 @@ def oracle(c):
         return who + "acceptance probability 1 but proposal rejected"
     if c["sel"] != (1 if c["moved"] else 0):
         return who + ("returned model state is " + ["the input state", "the proposed state", "neither the input nor the proposed state"][c["sel"]]
-                      + f" although position_moved = {c['moved']}")
+                      + f" although position_moved = {c['moved']}"
+                      + (f"; leaves of the returned state that differ from the proposed state (update_state of the proposal): "
+                         f"{c['leaves_differing_from_proposed_state']}, from the input state: {c['leaves_differing_from_input_state']}"
+                         f" (non-finite entries in the input state: {c['nonfinite_entries_in_input_state']}, in the proposed state: "
+                         f"{c['nonfinite_entries_in_proposed_state']})" if c["sel"] == 2 else ""))
     if not c["ks_ok"]:
         return who + "kernel state changed by a transition outside an adaptation epoch"
     if "eager_differs" in c:
